@@ -142,6 +142,8 @@ def compare_heavy(ctx, tag, base, other, conf='1A'):
             ctx.claim(tag + ':num_volume', eq(a.num_volume, b.num_volume), detail=repr(k))
             ctx.claim(tag + ':buried', eq(a.buried, b.buried), detail=repr(k))
             ctx.claim(tag + ':energy_volume', eq(a.energy_volume, b.energy_volume), detail=repr(k))
+            # the local term (backbone reorganisation) is computed from backbone C=O and the group's heavy atoms
+            ctx.claim(tag + ':energy_local', near(a.energy_local, b.energy_local, 1e-9) if not (is_sym(a.energy_local) or is_sym(b.energy_local)) else eq(a.energy_local, b.energy_local), detail='%r: %r vs %r' % (k, a.energy_local, b.energy_local))
             ctx.claim(tag + ':titratable-and-model-pka', a.titratable == b.titratable and a.model_pka == b.model_pka)
 
 
